@@ -68,7 +68,7 @@ CLAIMS = {
          "Fault-instant exploration: 1..6 compressed/archived journal and evtx sources extracted concurrently, extraction and temp-file registration stretched through hooks, one unsignalled and 4..16 signalled runs per case with instants uniform over the run, dense in the first 6 ms and just before the end; after exit the private TMPDIR must be empty and exit status 0/1 (or death by SIGINT before the handler exists); a signalled run must not simply run on (decidable for stretched runs).",
          "Trusts: hooks for stretching; instants controlled to ~50-300 us; crash points sampled not enumerated. Known finding: interrupt before the first delivered message waits for the next datum.",
          "DESIGN.md section 4 C18"),
- "C07": ("property-based testing / fault injection (proptest) plus a stratified small-scope sweep: generated faults on valid files of every kind, robustness + neighbour-integrity oracle through the real binary",
+ "C07": ("property-based testing / fault injection (proptest) plus a stratified small-scope sweep, and coverage-guided fuzzing (libFuzzer+ASan, thorough tier: fuzz_text, fuzz_container): generated faults on valid files of every kind incl. format-aware header damage with valid checksums, robustness + neighbour-integrity oracle through the real binary",
          "Fault exploration: a deterministic sweep (every cut and single damaged byte in the first and last 16 bytes, appended bytes, for small text and record files in 9 container variants) and thousands of generated (base file, fault) pairs over text, accounting records, shipped evtx/journals and their compressed/archived forms, random bytes and name/content mismatches, alone or beside 1..3 valid sources at a generated position; exit status must be 0/1 without signal or panic, the run must end, and the neighbours' lines must be complete and in reference order.",
          "Trusts: neighbour attribution through -n prefixes; the 120 s watchdog. A libFuzzer campaign over the readers is the thorough tier's complement (harness/fuzz).",
          "DESIGN.md section 4 C07"),
